@@ -23,6 +23,10 @@ C04  Schedule and configuration independence — what is proved.
   connection — `(lookup of the never-pruned cache at c − shift)[attr] = last produced value due at or before c` — whenever the
   reported output times do not go back, every reply carries the attribute (a persistent attribute must always be produced) and
   there is no initial data (`Sched/CachePush.lean`)
+* `inputs_function_of_history` (flat, push path): two states — of one run or of two interleavings — in which a simulator begins its
+  step for the same time hand it the same value over a persistent connection whenever the source has produced the same values due
+  by then; with `C01.causal_state` (everything due by then *has* been produced) the value depends on the interleaving only
+  through the source's own behaviour: the induction step of the confluence argument
 NOT proved: that all maximal runs give every simulator the same (time, inputs) sequence (the
 commutation/confluence argument of DESIGN.md).  That part is decided by exhaustive enumeration of all
 reply interleavings of small scenarios on the real scheduler and by the cross product of
@@ -32,6 +36,7 @@ import MosaikModel.Deliver
 import MosaikProofs.Sched.Others
 import MosaikProofs.Sched.Cached
 import MosaikProofs.Sched.CachePush
+import MosaikProofs.Sched.WFLive
 namespace Mosaik.C04
 open Mosaik
 
@@ -309,6 +314,28 @@ theorem begin_inputs_stable_cached {cfg : Cfg} (hw : WFCfg cfg) (hs : WFShape cf
   simp only
   unfold dueAt at hdue
   rw [hdue]
+
+/-- **the inputs of a step are a function of the sources' output histories** (flat configurations, push path): two states — of
+the same run or of two different interleavings — in which `q` begins its step for time `c`, and in which the source of a pushed
+persistent connection has produced the same values with due time at or before `c`, hand `q` the same value under the
+connection's key.  (By `C01.causal_state`, when the step begins the source has produced *all* it will ever produce with a due time
+at or before `c`; so the value depends on the interleaving only through the source's own behaviour.) -/
+theorem inputs_function_of_history {cfg : Cfg} (h1 : cfg.wfB = true) (h2 : cfg.shapeB = true) (h3 : cfg.flatB cfg.zeroRank = true)
+    (h4 : cfg.pushB = true) {src q : Sid} {pe : Port × Sid × TI × Port} (hq : q < cfg.n)
+    (hkey : (cfg.sim src).push.filter (hits q (keyOf src pe) src) = [pe]) (hpull : (cfg.sim q).pulled = [])
+    {d0 : Val} (hd0 : InputData.get? (cfg.sim q).persistent0 (keyOf src pe) = some d0)
+    {s₁ s₁' s₂ s₂' : State} (hr₁ : ReachP cfg s₁) (hr₂ : ReachP cfg s₂) (hn₁ : s₁.failed = none) (hn₂ : s₂.failed = none)
+    (hb₁ : step cfg s₁ (.deps q) = some s₁') (hb₂ : step cfg s₂ (.deps q) = some s₂') (hn₁' : s₁'.failed = none) (hn₂' : s₂'.failed = none) :
+    ∃ c₁ inp₁ m₁ c₂ inp₂ m₂, s₁'.log = .begin q c₁ inp₁ m₁ :: s₁.log ∧ s₂'.log = .begin q c₂ inp₂ m₂ :: s₂.log ∧
+      (TT.time c₁ = TT.time c₂ →
+        (chist src pe s₁.log).filter (fun x => decide (x.1 ≤ TT.time c₁)) = (chist src pe s₂.log).filter (fun x => decide (x.1 ≤ TT.time c₁)) →
+        InputData.get? inp₁ (keyOf src pe) = InputData.get? inp₂ (keyOf src pe)) := by
+  obtain ⟨c₁, inp₁, m₁, hl₁, _, hv₁⟩ := Mosaik.begin_push_refines_spec (wfB_sound h1) (shapeB_sound h2) (flatB_sound h3) (pushB_sound h4)
+    hq hkey hpull hr₁ hn₁ hb₁ hn₁'
+  obtain ⟨c₂, inp₂, m₂, hl₂, _, hv₂⟩ := Mosaik.begin_push_refines_spec (wfB_sound h1) (shapeB_sound h2) (flatB_sound h3) (pushB_sound h4)
+    hq hkey hpull hr₂ hn₂ hb₂ hn₂'
+  refine ⟨c₁, inp₁, m₁, c₂, inp₂, m₂, hl₁, hl₂, fun hc hh => ?_⟩
+  rw [hv₁ d0 hd0, hv₂ d0 hd0, ← hc, hh]
 
 /-- cache on or off: the same value, as a function of the source's output history (statement: `Sched/CachePush.lean`) -/
 theorem cache_on_off_same_value (cfg : Cfg) (src : Sid) (sport : Port) (sh : Nat) (h0 : (cfg.sim src).outputs0 = []) (c : Nat)
